@@ -66,6 +66,7 @@ class State:
         self.last_call: ast.AST | None = None
         self.load_failed: tuple | None = None
         self.is_tuple: set[str] = set()  # names known (on this path) to hold a tuple
+        self.unread_shape_test: str | None = None  # a test on the loaded object that the rule could not read
         self.length: dict[str, int] = {}  # names known (on this path) to have this length
 
 
@@ -117,6 +118,10 @@ class Interp:
                 if summary is not None:
                     out |= summary
                     return
+                out.add("opaque")  # a helper of the package whose result the rule cannot attribute
+            elif callee is None and isinstance(n.func, ast.Attribute) and n.func.attr != "doit" and isinstance(n.func.value, ast.Name) and n.func.value.id not in {"self", "cls"} \
+                    and not any(tg in st.tags.get(n.func.value.id, set()) for tg in ("key", "load", "doit", "hash", "final", "tmp")) and n.func.value.id in st.tags:
+                out.add("opaque")  # a method of a local object the rule knows nothing about
             if isinstance(n.func, ast.Attribute) and n.func.attr == "doit":
                 inner = set()
                 self._tags(n.func.value, st, fn, inner)
@@ -289,7 +294,12 @@ class Interp:
             is_rename = callee in RENAMES or (isinstance(c.func, ast.Attribute) and c.func.attr in {"replace", "rename"} and len(c.args) == 1 and "final" in self.tags(c.args[0], st, fn))
             if is_rename:
                 if callee in RENAMES:
-                    src, dst = c.args[0], c.args[1]
+                    kw = {k.arg: k.value for k in c.keywords if k.arg}
+                    pos = [a for a in c.args if not isinstance(a, ast.Starred)]
+                    src = pos[0] if pos else kw.get("src")
+                    dst = pos[1] if len(pos) > 1 else kw.get("dst")
+                    if src is None or dst is None or len(pos) != len(c.args):
+                        raise AnalysisError(f"{fn.qual}: cannot read source and destination of `{unparse(c)[:60]}`")
                 else:
                     src, dst = c.func.value, c.args[0]
                 ts, td = self.tags(src, st, fn), self.tags(dst, st, fn)
@@ -314,6 +324,8 @@ class Interp:
                 if isinstance(tgt, (ast.Tuple, ast.List)) and "load" in t and isinstance(node.value, ast.Name) and not any(isinstance(e, ast.Starred) for e in tgt.elts):
                     name = node.value.id
                     if not (name in st.is_tuple and st.length.get(name) == len(tgt.elts)) and not self._inside_catch_all(node):
+                        if st.unread_shape_test is not None:
+                            raise AnalysisError(f"{fn.qual}: whether `{unparse(node)[:50]}` is guarded by a shape test cannot be decided: {st.unread_shape_test}")
                         self.flag("R-SHAPE", f"{fn.qual}::unpack::{unparse(node)[:50]}", node,
                                   f"{fn.qual}: `{unparse(node)[:60]}` unpacks the loaded object without a test on this path that it is a tuple of length {len(tgt.elts)}",
                                   "a cache file written by another version / another program (or a colliding name) makes the call raise ValueError / TypeError instead of recomputing")
@@ -334,6 +346,34 @@ class Interp:
             if "<ret>" in st.tags and isinstance(node.value, ast.Call):
                 t = st.tags.pop("<ret>")
             self.judge_return(node, t, st, fn)
+
+    @staticmethod
+    def _inline_predicate(helper: FuncInfo, call: ast.Call) -> ast.AST | None:
+        """The return expression of a one-expression helper with its parameters replaced by the call's arguments."""
+        import copy
+
+        body = [b for b in helper.node.body if not (isinstance(b, ast.Expr) and isinstance(b.value, ast.Constant))]
+        if len(body) != 1 or not isinstance(body[0], ast.Return) or body[0].value is None:
+            return None
+        a = helper.node.args
+        if a.vararg or a.kwarg or a.kwonlyargs or any(isinstance(x, ast.Starred) for x in call.args) or any(k.arg is None for k in call.keywords):
+            return None
+        params = [x.arg for x in [*a.posonlyargs, *a.args]]
+        static = any(unparse(d) == "staticmethod" for d in helper.node.decorator_list)
+        if helper.cls is not None and helper.outer is None and not static and isinstance(call.func, ast.Attribute):
+            params = params[1:]
+        if len(call.args) > len(params):
+            return None
+        bound = dict(zip(params, call.args))
+        bound.update({k.arg: k.value for k in call.keywords})
+        if set(bound) != set(params):
+            return None
+
+        class Sub(ast.NodeTransformer):
+            def visit_Name(self, n):  # noqa: N802
+                return bound[n.id] if isinstance(n.ctx, ast.Load) and n.id in bound else n
+
+        return Sub().visit(copy.deepcopy(body[0].value))
 
     @staticmethod
     def _inside_catch_all(node: ast.AST) -> bool:
@@ -359,6 +399,8 @@ class Interp:
             self.ok_counts["verified_returns"] += 1
         elif "doit" in t:
             self.ok_counts["doit_returns"] += 1
+        elif "opaque" in t:
+            raise AnalysisError(f"{fn.qual}: `{unparse(node)[:60]}` returns the result of a call the rule cannot attribute (neither read as a cache load nor as doit()): cannot decide")
         else:
             self.flag("R-VERIFY", f"{key_base}::neither-cache-nor-doit", node,
                       f"{fn.qual}: `{unparse(node)[:60]}` returns a value that is neither a verified cache entry nor the result of doit()", {"tags": sorted(t)})
@@ -378,10 +420,24 @@ class Interp:
         if isinstance(test, ast.Call) and isinstance(test.func, ast.Name) and test.func.id == "isinstance" and len(test.args) == 2 and isinstance(test.args[0], ast.Name) and outcome:
             if unparse(test.args[1]) in {"tuple", "(tuple,)"}:
                 st.is_tuple.add(test.args[0].id)
+        elif isinstance(test, ast.Call) and getattr(test, "_module", None) is not None:
+            # a predicate helper of the package (`if not self._is_entry(content): return None`): its single return expression
+            # with the parameters replaced by the arguments is the test
+            helper = self.tree.funcs.get(self.tree.callee(test, fn) or "")
+            inlined = self._inline_predicate(helper, test) if helper is not None else None
+            if inlined is not None:
+                return self.test(inlined, outcome, st, helper)
+            if any(isinstance(a, ast.Name) and "load" in st.tags.get(a.id, set()) for a in ast.walk(test)):
+                st.unread_shape_test = f"`{unparse(test)[:50]}` (a call that is not read)"
         if isinstance(test, ast.Compare) and len(test.ops) == 1:
             lhs, rhs, op_ = test.left, test.comparators[0], test.ops[0]
-            if isinstance(rhs, ast.Call) and isinstance(lhs, ast.Constant):
+            if isinstance(rhs, ast.Call) and isinstance(lhs, (ast.Constant, ast.Name)):
                 lhs, rhs = rhs, lhs
+            if isinstance(rhs, ast.Name):
+                # a module-level constant (`_ENTRY_LENGTH = 2`)
+                top = fn.module.toplevel.get(rhs.id) if rhs.id not in fn.params else None
+                if isinstance(top, (ast.Assign, ast.AnnAssign)) and isinstance(top.value, ast.Constant):
+                    rhs = top.value
             if (isinstance(lhs, ast.Call) and isinstance(lhs.func, ast.Name) and lhs.func.id == "len" and len(lhs.args) == 1 and isinstance(lhs.args[0], ast.Name)
                     and isinstance(rhs, ast.Constant) and type(rhs.value) is int and ((isinstance(op_, ast.Eq) and outcome) or (isinstance(op_, ast.NotEq) and not outcome))):
                 st.length[lhs.args[0].id] = rhs.value
